@@ -55,7 +55,7 @@ func oracleC09(w *world.World, s *coop.Sched, final bool) *Finding {
 	st := storeByIP(w)
 	// what an administrator reserved and has not given back is still reserved: the labelled object exists
 	for ip := range w.AdminReserved {
-		if so, ok := st[ip]; !ok || !so.Reserved {
+		if so, ok := st[ip]; !ok || !so.Reserved || so.Key != "admin-reserved" {
 			return &Finding{Clause: "administrator-reservation-removed", Detail: fmt.Sprintf("%s was reserved by an administrator and not given back, the store now has {%v present=%v}; store log %v", ip, so, ok, tail(w.StoreLog, 4))}
 		}
 	}
